@@ -755,9 +755,11 @@ def reactor_clauses(patterns, products, kw, mols, rng, builtin=False, limit=20):
     from chython import Reactor
     kw = dict(kw)
     R = Reactor(patterns, products, **kw)
+    # independence clauses without aromaticity repair (see numbering_clauses)
+    R_plain = Reactor(patterns, products, **dict(kw, fix_aromatic_rings=False))
     bad = []
 
-    def run(ms):
+    def run(ms, R=R):
         out = []
         for rxn in itertools.islice(R(*ms), limit):
             out.append(rxn)
@@ -780,7 +782,12 @@ def reactor_clauses(patterns, products, kw, mols, rng, builtin=False, limit=20):
                 if p.check_valence():
                     bad.append(('valence-valid', f'product {p} of {rxn} has valence errors at {p.check_valence()}'))
     key = lambda rs: sorted({'.'.join(sorted(sig_str(p) for p in r.products)) for r in rs})
+    try:
+        base = run([m.copy() for m in mols], R_plain)
+    except Exception:
+        return bad
     kb = key(base)
+    run = (lambda f: (lambda ms: f(ms, R_plain)))(run)
     if len(base) < limit:
         # reactant order
         if len(mols) > 1:
@@ -1058,6 +1065,10 @@ def numbering_clauses(q, r, mol, kw=None, rng=None, rounds=2):
     from chython import Transformer
     rng = rng or random.Random(0)
     kw = dict(kw or {})
+    # aromaticity repair is switched off here: where kekule()/thiele(fix_tautomers) put the hydrogen of an under-specified
+    # aromatic ring (e.g. an imidazole N that lost its substituent) is a heuristic choice that belongs to C05, not to the
+    # template machinery; the products are compared as the patcher leaves them
+    kw.setdefault('fix_aromatic_rings', False)
     t = Transformer(q, r, **kw)
     bad = []
     try:
